@@ -50,6 +50,16 @@ def run(prog, run):
     if not writes:
         raise AnalysisBroken('C12.R1: no write to %s found (anchor gone)' % ENTRIES)
     writes = [w for w in writes if w[3] != 'constructor initialiser']
+    # a member of the manager / its private that is called only from the push arm is part of the push arm (an extracted "apply one item")
+    push_helpers = {}
+    for f, i, k, h in writes:
+        top = top_function(prog, f)
+        if top.qname in allowed or not (top.record or '').startswith(RM):
+            continue
+        cs = [(c, ci) for c, ci in prog.callers().get(top.id, []) if c.nodes[ci]['k'] == 'call']
+        if cs and all(top_function(prog, c).id == hs.id for c, ci in cs):
+            push_helpers[top.id] = [ci for c, ci in cs if c.id == hs.id]
+            allowed[top.qname] = 'push arm (helper called only from handleStanza)'
     for f, i, k, h in writes:
         run.instance(r1)
         top = top_function(prog, f)
@@ -72,6 +82,10 @@ def run(prog, run):
     for f, i, k, h in writes:
         if f.id == hs.id:
             sinks.append((i, 'mutation ' + h))
+        elif top_function(prog, f).id in push_helpers:
+            for ci in push_helpers[top_function(prog, f).id]:
+                if (ci, 'mutation ' + h) not in sinks:
+                    sinks.append((ci, 'mutation ' + h))
     if len(sinks) < 4:
         raise AnalysisBroken('C12.R2: expected parse, sendPacket and two mutations in handleStanza, found %s' % [s[1] for s in sinks])
     foreign = sender_eval(hs, False, False)
@@ -110,6 +124,90 @@ def run(prog, run):
     # ---- R3 push application
     r3 = run.rule('C12.R3', 'for type()==Set only, each item of one loop over items() is applied: Remove => entries.remove, every other subscription type => insert (decided per enumerator)', floor=2)
     hs_writes = [(i, h) for f, i, k, h in writes if f.id == hs.id]
+    if not hs_writes and push_helpers:
+        _r3_through_helper(prog, run, r3, hs, writes, push_helpers)
+        hs_writes = None
+    if hs_writes is not None:
+        _r3_inline(prog, run, r3, hs, writes, hs_writes)
+    _rest_of_run(prog, run, hs, writes, cont_scope, allowed)
+
+
+def _r3_through_helper(prog, run, r3, hs, writes, push_helpers):
+    """the application of one pushed item lives in a helper that is called only from the items loop: the call site is checked in handleStanza, the
+    remove / insert discipline and "every item is stored" inside the helper"""
+    iq_types = [e['name'] for e in prog.enum('QXmppIq::Type')['enumerators']]
+    sub_types = [e['name'] for e in prog.enum('QXmppRosterIq::Item::SubscriptionType')['enumerators']]
+    lv = None
+    for b in hs.blocks.values():
+        t = b.get('term')
+        if t and t.get('k') == 'rangefor' and 'QXmppRosterIq::items' in hs.fmt(t['range']):
+            lv = t['loopvar']
+    for gid, sites in push_helpers.items():
+        g = prog.fns[gid]
+        for ci in sites:
+            run.instance(r3)
+            reach = {t: cfgx.sink_reachability(hs, (lambda ev: (lambda f, c, st: ev.ev(c, st)))(cfgx.Evaluator(hs, {'QXmppIq::type': ('enum', 'QXmppIq::' + t)})), [ci])[ci] for t in iq_types}
+            in_set = reach['Set'] is not None and all(reach[t] is None for t in iq_types if t != 'Set')
+            loop = _enclosing_rangefor(hs, ci)
+            args = hs.nodes[ci].get('args', [])
+            item_idx = [k for k, a in enumerate(args) if hs.nodes[hs.skip(a)]['k'] == 'var' and hs.nodes[hs.skip(a)].get('decl') == lv]
+            problems = []
+            if not in_set:
+                problems.append('not exactly under rosterIq.type() == QXmppIq::Set')
+            if loop is None or 'QXmppRosterIq::items' not in loop:
+                problems.append('not inside the loop over rosterIq.items()')
+            if not item_idx:
+                problems.append('the helper is not handed the pushed item')
+            if problems:
+                run.violation(r3, 'handleStanza#push-apply#helper-call', hs.loc(ci), '; '.join(problems))
+                continue
+            run.ok(r3, hs.loc(ci), '%s(item) is called for every item of a Set push' % g.name)
+            gw = [(i, h) for f, i, k, h in writes if f.id == g.id]
+            by_sub = {}
+            for t in sub_types:
+                ev = cfgx.Evaluator(g, {'QXmppRosterIq::Item::subscriptionType': ('enum', 'QXmppRosterIq::Item::' + t)})
+                by_sub[t] = cfgx.sink_reachability(g, lambda f, c, st, ev=ev: ev.ev(c, st), [i for i, _ in gw])
+            for i, h in gw:
+                run.instance(r3)
+                only_remove = by_sub['Remove'][i] is not None and all(by_sub[t][i] is None for t in sub_types if t != 'Remove')
+                never_remove = by_sub['Remove'][i] is None and all(by_sub[t][i] is not None for t in sub_types if t != 'Remove')
+                probs = []
+                if h.startswith('remove') and not only_remove:
+                    probs.append('remove not control-dependent on subscriptionType()==Remove')
+                if h.startswith('insert') and not never_remove:
+                    probs.append('insert not on the non-Remove edge')
+                if h.startswith('insert'):
+                    par = g.parents()
+                    call = par.get(i)
+                    while call is not None and g.nodes[call]['k'] != 'call':
+                        call = par.get(call)
+                    val = g.nodes[call]['args'][-1] if call is not None and g.nodes[call].get('args') else None
+                    vn = g.nodes[g.skip(val)] if val is not None else None
+                    if not (vn is not None and vn['k'] == 'var' and vn.get('vk') == 'param' and vn.get('pidx') == item_idx[0]):
+                        probs.append('the stored entry is not the pushed item (it is %s)' % (g.fmt(val, inline=False)[:40] if val is not None else '?'))
+                if probs:
+                    run.violation(r3, 'handleStanza#push-apply#' + h.split(' ')[0], g.loc(i), '; '.join(probs))
+                else:
+                    run.ok(r3, g.loc(i), '%s in %s on the %s edge' % (h, g.name, 'Remove' if only_remove else 'non-Remove'))
+            run.instance(r3)
+            store_blocks = {g.pos(i)[0] for i, h in gw if g.pos(i) and not h.startswith(('remove', 'erase', 'take', 'clear'))}
+            witness = None
+            for t_ in sub_types:
+                if t_ == 'Remove':
+                    continue
+                ev = cfgx.Evaluator(g, {'QXmppRosterIq::Item::subscriptionType': ('enum', 'QXmppRosterIq::Item::' + t_)})
+                witness = cfgx.path_avoiding(g, g.entry, g.exit, store_blocks, lambda f, c, st, ev=ev: ev.ev(c, st))
+                if witness is not None:
+                    break
+            if witness is None:
+                run.ok(r3, g.loc(), 'every call of %s stores the pushed item unless it is a removal' % g.name)
+            else:
+                run.violation(r3, 'handleStanza#push-apply#skipped', g.loc(),
+                              'there is a path through %s on which a pushed item (subscription %s) is not stored in the cache: the view is no longer the last full roster plus '
+                              'every push' % (g.name, t_))
+
+
+def _r3_inline(prog, run, r3, hs, writes, hs_writes):
 
     def reach_under(callee, enum_scope, name):
         ev = cfgx.Evaluator(hs, {callee: ('enum', enum_scope + name)})
@@ -216,6 +314,10 @@ def run(prog, run):
                           'there is a path through the body of the items loop on which a pushed item (subscription %s) is not stored in the cache (a push that is judged '
                           '"unchanged" or otherwise skipped): the view is no longer the last full roster plus every push' % t_)
 
+
+
+def _rest_of_run(prog, run, hs, writes, cont_scope, allowed):
+    conn = prog.fn(RM + '::_q_connected')
     # ---- R4 session boundary
     r4 = run.rule('C12.R4', 'a session that is not a resumption starts from an empty cache; clear() empties both maps and the flag; '
                             'a non-resumable disconnect clears', floor=6)
@@ -397,13 +499,22 @@ def r6_bound_address(prog, run):
                             if w not in out:
                                 out = out + (w,)
                 return out if out != st else None
-            exits, _ = cfgx.explore(lam, (), transfer, lambda g, c, st: ev.ev(c, st), max_states=20000)
+            # the success arm: the continuation itself under "the result holds a bound address", or - when the result is dispatched with
+            # visit(overloaded{...}) - the visitor that takes the bound address
+            visitors = [l for l in prog.lambdas_in(lam) if len(l.params) == 1 and 'BoundAddress' in (l.params[0].get('t') or '')]
+            if visitors:
+                exits = {}
+                for l in visitors:
+                    ex, _ = cfgx.explore(l, (), transfer, None, max_states=20000)
+                    exits.update(ex)
+            else:
+                exits, _ = cfgx.explore(lam, (), transfer, lambda g, c, st: ev.ev(c, st), max_states=20000)
             bad = [(st, w) for st, w in exits.items() if not {'user', 'domain'} <= set(st)]
             if bad:
                 missing = sorted({'user', 'domain'} - set(bad[0][0]))
                 run.violation(rid, '%s#bound-address-not-adopted:%s' % (f.outer_name(), '+'.join(missing)), lam.loc(),
                               'the resource-binding continuation in %s does not store the bound %s in the configuration: jidBare() keeps the login address, and roster pushes the server '
-                              'stamps with the bound address are rejected as foreign' % (f.display()[:50], ' and '.join(missing)), cfgx.describe_path(lam, bad[0][1]))
+                              'stamps with the bound address are rejected as foreign' % (f.display()[:50], ' and '.join(missing)))
             else:
                 run.ok(rid, lam.loc(), 'user and domain are set from the bound address on every success path (%d)' % len(exits))
     if not sites:
